@@ -380,8 +380,18 @@ func toInt(v Value) (int, bool) {
 	return 0, false
 }
 
-// IndexGet reads base[idx].
-func (it *Interp) IndexGet(base, idx Value) Value {
+// IndexGet reads base[idx] on the way to an element that is assigned to
+// (x[i][j] = v reads x[i]); a base that cannot be indexed is named in the
+// message, as indexAssign in vm.go does.
+func (it *Interp) IndexGet(base, idx Value) Value { return it.indexGet(base, idx, false) }
+
+// IndexExpr evaluates the expression base[idx] / base.name. The VM's OpIndex
+// names the type of the INDEX operand in "not indexable: <type>" (vm.go,
+// index.TypeName()); the message is part of what the stability filter and the
+// differential checks compare, so it is reproduced as it is.
+func (it *Interp) IndexExpr(base, idx Value) Value { return it.indexGet(base, idx, true) }
+
+func (it *Interp) indexGet(base, idx Value, exprForm bool) Value {
 	switch b := base.(type) {
 	case *ArrV:
 		i, ok := idx.(IntV)
@@ -430,6 +440,9 @@ func (it *Interp) IndexGet(base, idx Value) Value {
 		return Undef
 	case *GoModV:
 		abort("go module attribute access is not modelled")
+	}
+	if exprForm {
+		rtErr("not-indexable", "not indexable: %s", TypeName(idx))
 	}
 	rtErr("not-indexable", "not indexable: %s", TypeName(base))
 	return nil
